@@ -46,7 +46,10 @@ def fieldsLine (st : FdRun) (lineNo : Nat) (line : String) : Except String (FdRu
     let fs := fields rest
     let get := fun k => (lookup fs k).getD ""
     match (do
-      let pfx ← unhexStr (get "prefix")
+      let pfxRaw ← unhexStr (get "prefix")
+      -- names are joined with path.Join, which also tidies the prefix ("dev/", "./dev" are "dev")
+      let pfx := if pfxRaw.startsWith "./" then (pfxRaw.drop 2).toString else pfxRaw
+      let pfx := if pfx.endsWith "/" then (pfx.dropEnd 1).toString else pfx
       let shape ← parseShape (get "shape")
       let svc ← parseSvcVals (get "svc")
       let names ← parseXList (get "names")
@@ -111,6 +114,8 @@ def fieldsLine (st : FdRun) (lineNo : Nat) (line : String) : Except String (FdRu
             | _ => none
           let aliased := after.filter fun (_, a, b) => a != b
           (if perr == "-" then [] else [s!"PROPFAIL C20 accepts_valid_shape {tag} perr={perr}"]) ++
+          (if get "aerr" == "xTIMEOUT" then
+            [s!"PROPFAIL C10 init_complete {tag} construction with struct-tagged secrets that are all present at the service did not finish: names={names} want={wantNames}"] else []) ++
           (if perr != "-" || names == wantNames then [] else [s!"PROPFAIL C20 names_exact {tag} names={names} want={wantNames}"]) ++
           (if perr != "-" || (reqs.all fun r => wantNames.contains r || ((parseXList (get "listed")).getD []).contains r) then [] else [s!"PROPFAIL C20 requests_only_named {tag} reqs={reqs} names={wantNames}"]) ++
           (if perr.startsWith "panic" then [s!"PROPFAIL C10 no_panic_on_duplicates {tag} perr={perr}"] else []) ++
